@@ -256,11 +256,13 @@ def build_tu(vu, work, canary=None):
                         raise X.ExtractionError("R2 did not fire on %s" % e.qualname)
                     if k:
                         e.rewrites.append("R2 const-ref return -> by value x%d" % k)
-                if "r3" in pos:
+                if kind in ("extract", "block"):
+                    # R3 is applied wherever a range-for occurs (the front end has none); with the option r3 it must fire
                     e.text, k = X.rule_r3_text(e.text)
-                    if k == 0:
+                    if k == 0 and "r3" in pos:
                         raise X.ExtractionError("R3 did not fire on %s" % e.qualname)
-                    e.rewrites.append("R3 range-for -> index loop x%d" % k)
+                    if k:
+                        e.rewrites.append("R3 range-for -> index loop x%d" % k)
                 if kind in ("extract", "whole", "block"):
                     rule_r7(e, typedef_table(hdr, [os.path.join(vdir, "env.h")]))
                 if "r15" in pos:
